@@ -186,6 +186,24 @@ def typed_helpers(F, S, run):
                     out.append(bad("R-SEQ", inst, fn.loc(nd["id"]), fn.qn,
                                    "container read consumes size()*sizeof(value_type) into the container's storage",
                                    "length %s into %s" % (fmt_term(t), fmt_term(dst))))
+        if len(fn.params) == 1 and len(targs) == 3 and "basic_string" in fn.key and calls and len(calls[0].get("args", [])) == 2:
+            # the string overload (template over the character type): length = size() * sizeof(CharT) into the string's storage
+            n += 1
+            nd = calls[0]
+            pv = ("var", fn.params[0]["n"], fn.params[0]["d"])
+            t = fn.term(nd["args"][1])
+            dst = fn.term(nd["args"][0])
+            inst = "%s#length" % fn.key
+            req = "a string read consumes size() * sizeof(CharT) bytes into the string's own storage (the element size is part of the length for every character type)"
+            good = t[0] == "op" and t[1] == "*" and ("size", pv) in (t[2], t[3]) and mentions_var(dst, pv)
+            if good:
+                other = t[3] if t[2] == ("size", pv) else t[2]
+                good = other[0] == "const" and other[1] == (targs[0].get("size_bits", 8) // 8)
+            if good:
+                out.append(ok("R-SEQ", inst, fn.loc(nd["id"]), fn.qn, req, "length %s" % fmt_term(t), nontrivial=False))
+            else:
+                out.append(bad("R-SEQ", inst, fn.loc(nd["id"]), fn.qn, req,
+                               "length %s: the character size does not enter (right only for one-byte characters)" % fmt_term(t)))
         if len(targs) == 2 and len(fn.params) == 1:
             # size-prefixed: sign guard (signed prefixes), max_size guard, then resize(count), then Read(container)
             n += 1
@@ -229,6 +247,35 @@ def typed_helpers(F, S, run):
                 out.append(bad("R-SEQ", inst + "-order", fn.loc(nd["id"]), fn.qn,
                                "prefix is read, container sized by it, then filled", "shape not found"))
     return out, n
+
+
+def string_bound(F, S):
+    """ReadNullTerminatedString(maxCount): every character is read only while fewer than maxCount were taken (so a bound of 0
+    consumes nothing), whatever the loop's form."""
+    fn = F.fn(NS + "Reader::ReadNullTerminatedString", nparams=1)
+    eng = Engine(F, S)
+    eng.analyze(fn, frozenset())
+    mx = ("var", fn.params[0]["n"], fn.params[0]["d"])
+    out = []
+    n = 0
+    rets = [nd for nd in fn.nodes if nd["k"] == "ReturnStmt" and "value" in nd]
+    strv = fn.term(rets[0]["value"]) if rets else None
+    for nd in fn.nodes:
+        if nd["k"] in CALLS and nd.get("fname") in ("Read", "ReadImplementation") and nd.get("args"):
+            n += 1
+            site = final_site_facts(eng, fn, nd["id"]) or set()
+            inst = "%s#read-under-bound" % fn.qn
+            req = "a character is read only while the number already taken is < maxCount"
+            counters = [f[1] for f in site if f[0] == "<" and f[2] == mx]
+            if counters or (strv is not None and prove_le(site, ("size", strv), mx, strict=True)):
+                out.append(ok("R-GUARD", inst, fn.loc(nd["id"]), fn.qn, req, "bound test dominates the read"))
+            else:
+                out.append(bad("R-GUARD", inst, fn.loc(nd["id"]), fn.qn, req,
+                               "the read is reached without `count < maxCount` (first iteration of a do-while?): maxCount == 0 still consumes a character; facts: %s" % (
+                                   "; ".join(sorted(fmt_fact(f) for f in site if f[0] not in ("ev", "called"))) or "none")))
+    if n == 0:
+        raise AnalysisBroken("ReadNullTerminatedString: no character read found")
+    return out
 
 
 def cnt_nonneg(t):
@@ -370,6 +417,7 @@ def check(F, run, tier):
                         "bytes are copied from streamBuffer + position into the caller's buffer",
                         "memcpy(%s, %s, …)" % (fmt_term(dst), fmt_term(src))))
 
+    run.add(string_bound(F, S))
     # ---- typed helpers
     obs, n = typed_helpers(F, S, run)
     run.add(obs)
